@@ -416,8 +416,9 @@ def main(check, tier, argv=()):
       'coverage': coverage, 'assumptions': list(check.assumptions),
       'wall_s': round(wall, 2), 'violations': unlisted,
   }
-  os.makedirs(os.path.join(boot.VERIF_ROOT, 'evidence'), exist_ok=True)
-  ev_path = os.path.join(boot.VERIF_ROOT, 'evidence', f'{check.prop}.json')
+  ev_dir = os.environ.get('VERIF_EVIDENCE_DIR') or os.path.join(boot.VERIF_ROOT, 'evidence')
+  os.makedirs(ev_dir, exist_ok=True)
+  ev_path = os.path.join(ev_dir, f'{check.prop}.json')
   with open(ev_path + '.tmp', 'w') as f:
     json.dump(evidence, f, indent=1, sort_keys=True, default=repr)
   os.replace(ev_path + '.tmp', ev_path)
